@@ -31,11 +31,21 @@ def run(ctx):
     from ..pat import match_stmt as _ms
     th = []
     TH = N = None
-    for pat_ in (f"$$th = {sp}[$$n]['logL'].copy()", f"$$th = {sp}['logL'][$$n].copy()", f"$$th = {sp}[$$n]['logL']", f"$$th = {sp}['logL'][$$n]"):
-        for nid in fa.find(lambda s_: _ms(pat_, s_) is not None):
-            b_ = _ms(pat_, fa.stmt(nid))
+    pats_ = (f"{sp}[$$n]['logL'].copy()", f"{sp}['logL'][$$n].copy()", f"{sp}[$$n]['logL']", f"{sp}['logL'][$$n]")
+    for pat_ in pats_:
+        for nid in fa.find(lambda s_: _ms("$$th = " + pat_, s_) is not None):
+            b_ = _ms("$$th = " + pat_, fa.stmt(nid))
             th.append(nid)
             TH, N = src(b_["th"]), src(b_["n"])
+    if not th:
+        # no local for the threshold: the sample's likelihood is returned directly
+        from ..pat import match_expr as _mx
+        for nid, r_ in rets:
+            for pat_ in pats_:
+                b_ = _mx(pat_, r_.value) if r_.value is not None else None
+                if b_ is not None:
+                    th.append(nid)
+                    TH, N = src(r_.value), src(b_["n"])
     ctx.ob("R-SIB", "C17.1", f, "the threshold is the log-likelihood of the n-th of the samples it was given", len(th) == 1, "")
     ctx.require(len(th) == 1, "determine_log_likelihood_threshold: `<threshold> = samples[<n>]['logL']` not found")
     REN = {N: "n", TH: "threshold"}
